@@ -1,6 +1,6 @@
 #!/bin/bash
 # runs every drill (reverted fixes + hand-written mutations listed in drills/mutations.txt + seeded changes) against its property's quick check
-cd /verif
+cd "$(dirname "$(readlink -f "$0")")/.."
 { cat drills/reverts.txt; cat drills/mutations.txt 2>/dev/null; for d in seeded/*/; do p=$(python3 -c "import json;print(json.load(open('$d/meta.json'))['detected_by']['check'])"); echo "$d/patch.diff $p"; done; } | while read f p; do
   [ -z "$f" ] && continue; grep -q "^$f " drills/neutral.txt && { echo "DRILL $f $p: NEUTRAL (skipped)"; continue; }
   DRILL_SKIP_SUITE=1 drills/run.sh "$f" "$p" ${DRILL_TIER:-quick} 2>&1 | grep '^DRILL' | sed "s|patch.diff|$f|"
